@@ -169,11 +169,13 @@ Definition asked (pre : list event) (i : nat) : bool :=
   existsb (fun ev => match ev with EvAuth j => Nat.eqb i j | _ => false end) pre.
 
 (** Before any Generate only authentication happens: no signer call, nothing
-    added, listed or removed. *)
+    added or removed.  (Asking the agent for its identities changes nothing
+    and is not something C01 forbids: a handler may look before it challenges.) *)
 Definition auth_only (ev : event) : bool :=
   match ev with
   | EvAuth _ => true
   | EvAgent (PAuth _) (RSign _ _) _ _ => true
+  | EvAgent (PAuth _) RList _ _ => true
   | _ => false
   end.
 Definition not_auth_nor_gen (ev : event) : bool :=
